@@ -412,6 +412,7 @@ def r7(ctx):
     ctx.sub(c01.r9, only=("handover:",))                  # ... for minus the log-likelihood of the model it was given
     from . import c12
     ctx.sub(c12.r3, only=("unconditional", "range", "slot"))     # every cluster's statistics are refitted to the current labels, one-member clusters included
+    ctx.sub(c12.r1)                                       # ... from the rows of its current members (not from a table keyed by something else)
 
 
 # ---------------------------------------------------------------------------------------------------------------------------
@@ -571,6 +572,37 @@ def _lifecycle(ctx, which):
             got = {d.id for d in rd.origins(bn, arg.id)} if isinstance(arg, ast.Name) else set()
             ok = bool(got) and bool(want) and got == want
             ctx.check(ok, fi, "the BIC is computed from the state whose labels the result reports", line=bn.lineno, role="bic-state",
+                      expected=f"state defined at line(s) {sorted(cfg.nodes[i].lineno for i in want)}",
+                      found=f"state defined at line(s) {sorted(cfg.nodes[i].lineno for i in got)}")
+    if "index-state" in which:
+        # C17: the index the result reports was computed from the state whose labels it reports (not from an earlier round's state)
+        ctor = calls_to(ana, fi, "fast_ticc.containers.results.SingleDataSeriesResult")
+        if len(ctor) != 1:
+            raise AnalysisError("SingleDataSeriesResult constructor call not found exactly once")
+        kw = ctor_args(ana, ctor[0])
+        if "calinski_harabasz_index" not in kw or "point_labels" not in kw:
+            raise AnalysisError("the result constructor is not given calinski_harabasz_index= / point_labels=")
+        fl = Flow(ana, fi)
+        lab_dep = fl.closure(kw["point_labels"])
+        want = set()
+        for nd in [cfg.node_of(kw["point_labels"])] + [cfg.nodes[i] for i in lab_dep.defs]:
+            src = None if nd is None or nd.ast is None else (nd.ast.iter if isinstance(nd.ast, ast.For) else getattr(nd.ast, "value", nd.ast))
+            if src is None or any(ana.res.type_of(fi, ast.Name(id=v_, ctx=ast.Load())) == MODEL_STATE for v_ in (nd.defs or ())):
+                continue
+            for n in ast.walk(src):
+                if isinstance(n, ast.Name) and isinstance(n.ctx, ast.Load) and ana.res.type_of(fi, n) == MODEL_STATE:
+                    want |= {d.id for d in rd.origins(cfg.expr_node.get(id(n)) or nd, n.id)}
+        dep = fl.closure(kw["calinski_harabasz_index"])
+        chq = "fast_ticc.cluster_metrics.calinski_harabasz_index"
+        feeding = [c for c in calls_to(ana, fi, chq) if any(c.node is x for x in dep.calls) or c.node is kw["calinski_harabasz_index"]]
+        if not feeding:
+            raise AnalysisError("the reported index does not come from a calinski_harabasz_index call in the main loop function")
+        for c in feeding:
+            cn_ = cfg.node_of(c.node)
+            arg = bind_args(c.callee.func, c.node).get("model")
+            got = {d.id for d in rd.origins(cn_, arg.id)} if isinstance(arg, ast.Name) else set()
+            ok = bool(got) and bool(want) and got == want
+            ctx.check(ok, fi, "the reported index is computed from the state whose labels the result reports", line=cn_.lineno, role="index-state",
                       expected=f"state defined at line(s) {sorted(cfg.nodes[i].lineno for i in want)}",
                       found=f"state defined at line(s) {sorted(cfg.nodes[i].lineno for i in got)}")
     if "nothing-after-relabel" in which:
